@@ -11,6 +11,7 @@ partial def itemOfJson (j : Json) : Item :=
   match jstr (jfield j "k") with
   | "obs" => .obs
   | "raise" => .raise
+  | "catch" => .catch ((jarr (jfield j "body")).map itemOfJson)
   | _ => .block (GinDom.scopeArgOfJson (jfield j "arg")) ((jarr (jfield j "body")).map itemOfJson)
 
 def run (case : Json) : Json :=
@@ -23,7 +24,7 @@ def run (case : Json) : Json :=
     | none => Json.null
   let obsJson (l : List Scope) : Json := .arr (l.map (fun σ => Json.arr #[strs σ, xOf σ])).toArray
   let ths : Threads := (List.range progs.length).zip (progs.map (fun p =>
-    ({ todo := (compileItems 0 p).1 } : Th)))
+    ({ todo := (compileItems 0 0 p).1 } : Th)))
   let final := runSched ths ((jarr (jfield case "schedule")).map jnat)
   let thJson := final.map (fun kv => Json.mkObj [
     ("obs", obsJson kv.2.obs),
